@@ -1,6 +1,8 @@
 /-
   C10, acceptance half for ALL documents: `rendered_conforms` -- for every well-formed document of
-  Spec/CatalogRules.lean, WITH any optional entries of the menu on the catalog, on every page and on every
+  Spec/CatalogRules.lean, WITH any optional entries of the menu -- since the sweep follow-up the menu is EVERY entry the
+  shipped catalog, page and template types declare (`rules_tables_complete`, Props/C10Keys.lean), the ten name trees of
+  the name dictionary and the eight entries of /Resources -- on the catalog, on every page and on every
   template, the rendered catalog conforms (declarative reading, Spec/Conforms.lean) to the regenerated shipped
   specification.  Generalises `rendered_conforms_partial` of Props/C10.lean (documents without optional entries).
 
@@ -20,7 +22,8 @@ open Parsley.CatalogRules (Doc Node Nodes PageOpts CatOpts kType kPages kCount k
   pageDict nodeDict catalogDict arrOf optEnt DictKind ValKind keyTable requiredKeys pageMenu
   kCropBox kLastModified kRotate kTabs kUserUnit kID kAnnots kVersion kPageMode kPageLayout kLang kNeedsRendering
   kPageLabels kDests kEmbeddedFiles kOutlines kMetadata kOpenAction nCatalog nPage nTemplate pageModes pageLayouts
-  tabOrders nameAt Rect Num Date Tree namesDict kNamesKey strObj)
+  tabOrders nameAt Rect Num Date Tree namesDict kNamesKey strObj pageRows catRows namesRows rowsObjL GDict GStream
+  Contents Resources arrObj refsObj afObj refObj kB kProcSet)
 
 /-! ### generic unfolding lemmas (any graph, the shipped context) -/
 
@@ -148,11 +151,16 @@ def RV (d : Doc) : ValKind → Obj → Prop
   | .number, v => ∃ n : Num, v = n.obj
   | .rect, v => ∃ r : Rect, v = r.obj
   | .date, v => ∃ t : Date, v = t.obj
-  | .array, v => ∃ rs : List Nat, v = .arr (arrOf (rs.map fun r => Obj.ref r 0))
+  | .array, v => ∃ xs : List Obj, v = .arr (arrOf xs)
+  | .dict, v => ∃ kvs, v = .dict kvs
+  | .stream, v => ∃ kvs s bs, v = .stream kvs s bs
+  | .arrayOfDict, v => ∃ l : List GDict, v = afObj l
+  | .contents, v => ∃ c : Contents, v = c.obj
+  | .resources, v => ∃ r : Resources, v = r.obj
   | .arrayOrDict, v => v = .arr .nil ∨ v = .dict .nil
   | .numTree, v => ∃ t : Tree Int, v = Tree.obj CatalogRules.kNums Obj.int t
   | .nameDict, v => ∃ c : CatOpts, namesDict c = some v
-  | .refDict, v => ∃ i, v = .ref i 0 ∧ d.cat.outlines = some i
+  | .refDict, v => ∃ i, v = .ref i 0 ∧ (d.cat.outlines = some i ∨ d.cat.x.dests = some i)
   | .refStream, v => ∃ i, v = .ref i 0 ∧ d.cat.metadata = some i
   | .parentRef, v => ∃ p, v = .ref p 0
   | .rootRef, _ => False
@@ -169,8 +177,10 @@ inductive S' (d : Doc) : Obj → Chk → Prop
   /-- a rendered value of kind `vk` against a shipped check of the shape of `vk` -/
   | menu (vk : ValKind) (v : Obj) (c : Chk) : kindMatches vk c = true → RV d vk v → S' d v c
   | real (n m : Int) : S' d (.real n m) (.prim Attr.dflt .real)
-  | annot (r : Nat) : S' d (.ref r 0) (.any Attr.dflt)
-  | emptyDict : S' d (.dict .nil) (.dict Attr.dflt .nil)
+  /-- an element of an arbitrary array -/
+  | anyElem (x : Obj) : S' d x (.any Attr.dflt)
+  | streamArr (l : List GStream) :
+      S' d (.arr (arrOf (l.map GStream.obj))) (.array Attr.dflt (.stream Attr.dflt .nil) none)
   | nameTree (t : Tree Bytes) (c : Chk) :
       isAny (res c) .allowed (some .nameTree) = true → S' d (Tree.obj kNamesKey strObj t) c
 
@@ -196,14 +206,37 @@ theorem tree_isRef {κ : Type} (lk : Bytes) (fn : κ → Obj) (t : Tree κ) : (T
   cases t <;> rfl
 
 theorem namesDict_rows (c : CatOpts) (v : Obj) (h : namesDict c = some v) :
-    v = .dict (dictOfList (optPairs [(kDests, c.dests.map (Tree.obj kNamesKey strObj)),
-                                     (kEmbeddedFiles, c.embeddedFiles.map (Tree.obj kNamesKey strObj))])) := by
+    v = .dict (dictOfList (optPairs (namesRows c))) := by
   unfold namesDict at h
-  cases hd : c.dests <;> cases he : c.embeddedFiles <;> simp [hd, he] at h <;> subst h <;> rfl
+  split at h
+  · cases h
+  · simp only [Option.some.injEq] at h
+    rw [← rowsObjL_eq]; exact h.symm
+
+theorem namesRows_rv (c : CatOpts) (k : Bytes) (v : Obj) (h : (k, some v) ∈ namesRows c) :
+    k ∈ CatalogRules.nameTreeKeys ∧ ∃ t : Tree Bytes, v = Tree.obj kNamesKey strObj t := by
+  refine ⟨?_, ?_⟩
+  · rw [← namesRows_keys c]; exact List.mem_map_of_mem (f := (·.1)) h
+  · simp only [namesRows, List.mem_cons, Prod.mk.injEq, List.not_mem_nil, or_false] at h
+    rcases h with ⟨_, h⟩ | ⟨_, h⟩ | ⟨_, h⟩ | ⟨_, h⟩ | ⟨_, h⟩ | ⟨_, h⟩ | ⟨_, h⟩ | ⟨_, h⟩ | ⟨_, h⟩ | ⟨_, h⟩ <;>
+      (obtain ⟨t, _, rfl⟩ := map_some_eq h; exact ⟨t, rfl⟩)
+
+theorem resRows_rv (r : Resources) (k : Bytes) (v : Obj) (h : (k, some v) ∈ r.rows) :
+    (k ∈ CatalogRules.resourceDictKeys ∧ ∃ kvs, v = .dict kvs) ∨ (k = kProcSet ∧ ∃ xs : List Obj, v = .arr (arrOf xs)) := by
+  simp only [Resources.rows, List.mem_cons, Prod.mk.injEq, List.not_mem_nil, or_false] at h
+  rcases h with ⟨rfl, h⟩ | ⟨rfl, h⟩ | ⟨rfl, h⟩ | ⟨rfl, h⟩ | ⟨rfl, h⟩ | ⟨rfl, h⟩ | ⟨rfl, h⟩ | ⟨rfl, h⟩
+  · obtain ⟨a, _, rfl⟩ := map_some_eq h; exact Or.inl ⟨by decide, _, rfl⟩
+  · obtain ⟨a, _, rfl⟩ := map_some_eq h; exact Or.inl ⟨by decide, _, rfl⟩
+  · obtain ⟨a, _, rfl⟩ := map_some_eq h; exact Or.inl ⟨by decide, _, rfl⟩
+  · obtain ⟨a, _, rfl⟩ := map_some_eq h; exact Or.inl ⟨by decide, _, rfl⟩
+  · obtain ⟨a, _, rfl⟩ := map_some_eq h; exact Or.inr ⟨rfl, _, rfl⟩
+  · obtain ⟨a, _, rfl⟩ := map_some_eq h; exact Or.inl ⟨by decide, _, rfl⟩
+  · obtain ⟨a, _, rfl⟩ := map_some_eq h; exact Or.inl ⟨by decide, _, rfl⟩
+  · obtain ⟨a, _, rfl⟩ := map_some_eq h; exact Or.inl ⟨by decide, _, rfl⟩
 
 /-- one unfolding of a menu value against a check of its kind -/
 theorem menu_closed (g : Graph) (d : Doc) (hdate : ∀ s, CatalogRules.isDate s = PdfDate.dateOK s)
-    (houtl : ∀ i, d.cat.outlines = some i → g.lookup (i, 0) = some (.dict .nil))
+    (houtl : ∀ i, (d.cat.outlines = some i ∨ d.cat.x.dests = some i) → g.lookup (i, 0) = some (.dict .nil))
     (hmeta : ∀ i, d.cat.metadata = some i → g.lookup (i, 0) = some (.stream .nil 0 []))
     (vk : ValKind) (v : Obj) (c : Chk) (hk : kindMatches vk c = true) (hrv : RV d vk v)
     (f : Obj → Chk → Bool) (hf : ∀ o' c', S' d o' c' → f o' c' = true) :
@@ -260,10 +293,77 @@ theorem menu_closed (g : Graph) (d : Doc) (hdate : ∀ s, CatalogRules.isDate s 
     have hr : res c = .array Attr.dflt (.any Attr.dflt) none := of_decide_eq_true hk
     have hres := resolve_of_res c _ hr (by intro n; simp)
     refine conf_array g shippedCtx f _ c _ _ _ hres (value_nonref g _ rfl) rfl rfl ?_
+    intro x _
+    exact hf _ _ (S'.anyElem x)
+  | dict =>
+    obtain ⟨kvs, rfl⟩ := hrv
+    have hr : res c = .dict Attr.dflt .nil := of_decide_eq_true hk
+    have hres := resolve_of_res c _ hr (by intro n; simp)
+    exact conf_dict_nil g shippedCtx f _ c _ _ hres (value_nonref g _ rfl) rfl rfl
+  | stream =>
+    obtain ⟨kvs, st, bs, rfl⟩ := hrv
+    have hr : res c = .stream Attr.dflt .nil := of_decide_eq_true hk
+    have hres := resolve_of_res c _ hr (by intro n; simp)
+    exact conf_stream_nil g shippedCtx f _ c _ _ _ _ hres (value_nonref g _ rfl) rfl rfl
+  | arrayOfDict =>
+    obtain ⟨l, rfl⟩ := hrv
+    have hr : res c = .array Attr.dflt (.dict Attr.dflt .nil) none := of_decide_eq_true hk
+    have hres := resolve_of_res c _ hr (by intro n; simp)
+    refine conf_array g shippedCtx f _ c _ _ _ hres (value_nonref g _ rfl) rfl rfl ?_
     intro x hx
     rw [arrOf_vals] at hx
-    obtain ⟨r, _, rfl⟩ := List.mem_map.mp hx
-    exact hf _ _ (S'.annot r)
+    obtain ⟨gd, _, rfl⟩ := List.mem_map.mp hx
+    exact hf _ _ (S'.menu .dict _ _ (by decide +kernel) ⟨_, rfl⟩)
+  | contents =>
+    obtain ⟨cv, rfl⟩ := hrv
+    have hr : res c = contentsChk := of_decide_eq_true hk
+    have hres := resolve_of_res c _ hr (by intro n; simp [contentsChk])
+    cases cv with
+    | one sv =>
+      refine conf_disj g shippedCtx f _ c _ _ (.stream Attr.dflt .nil) hres rfl rfl
+        (by simp [ChkL.chks, ChkL.toList]) (hf _ _ (S'.menu .stream _ _ (by decide +kernel) ⟨_, _, _, rfl⟩))
+    | many l =>
+      refine conf_disj g shippedCtx f _ c _ _ (.array Attr.dflt (.stream Attr.dflt .nil) none) hres rfl rfl
+        (by simp [ChkL.chks, ChkL.toList]) (hf _ _ (S'.streamArr l))
+  | resources =>
+    obtain ⟨r, rfl⟩ := hrv
+    simp only [kindMatches, resourcesMatches] at hk
+    cases hr : res c with
+    | dict a ents =>
+      rw [hr] at hk
+      simp only [Bool.and_eq_true, decide_eq_true_eq] at hk
+      obtain ⟨⟨⟨⟨ha, hnd⟩, hnr⟩, hkeys⟩, hproc⟩ := hk
+      subst ha
+      have hres := resolve_of_res c _ hr (by intro n; simp)
+      have hv : value g r.obj = .dict (dictOfList (optPairs r.rows)) := by
+        rw [value_nonref g _ rfl, ← rowsObjL_eq]; rfl
+      refine conf_dict g shippedCtx f _ .null c _ _ _ hres hv rfl rfl hnd ?_ (hval_list f _ _ ?_)
+      · rw [List.all_eq_true] at hnr ⊢
+        intro e he
+        rw [hnr e he]; rfl
+      · intro kv hkv
+        obtain ⟨k, v⟩ := kv
+        rw [mem_optPairs] at hkv
+        rcases resRows_rv r k v hkv with ⟨hkm, kvs, rfl⟩ | ⟨rfl, xs, rfl⟩
+        · rw [List.all_eq_true] at hkeys
+          have h1 := hkeys k hkm
+          cases hfe : findEnt ents k with
+          | none => rw [hfe] at h1; simp at h1
+          | some oc =>
+            obtain ⟨opt, c''⟩ := oc
+            rw [hfe] at h1
+            simp only [Bool.and_eq_true, decide_eq_true_eq] at h1
+            exact ⟨opt, c'', rfl, by rw [h1.1]; decide,
+              hf _ _ (S'.menu .dict _ c'' (by simpa [kindMatches] using h1.2) ⟨_, rfl⟩)⟩
+        · cases hfe : findEnt ents kProcSet with
+          | none => rw [hfe] at hproc; simp at hproc
+          | some oc =>
+            obtain ⟨opt, c''⟩ := oc
+            rw [hfe] at hproc
+            simp only [Bool.and_eq_true, decide_eq_true_eq] at hproc
+            exact ⟨opt, c'', rfl, by rw [hproc.1]; decide,
+              hf _ _ (S'.menu .array _ c'' (by simpa [kindMatches] using hproc.2) ⟨_, rfl⟩)⟩
+    | _ => rw [hr] at hk; simp at hk
   | arrayOrDict =>
     have hr : res c = arrayOrDictChk := of_decide_eq_true hk
     have hres := resolve_of_res c _ hr (by intro n; simp [arrayOrDictChk])
@@ -271,7 +371,7 @@ theorem menu_closed (g : Graph) (d : Doc) (hdate : ∀ s, CatalogRules.isDate s 
     · refine conf_disj g shippedCtx f _ c _ _ (.array Attr.dflt (.any Attr.dflt) none) hres rfl rfl
         (by simp [ChkL.chks, ChkL.toList]) (hf _ _ (S'.menu .array _ _ (by decide +kernel) ⟨[], rfl⟩))
     · refine conf_disj g shippedCtx f _ c _ _ (.dict Attr.dflt .nil) hres rfl rfl
-        (by simp [ChkL.chks, ChkL.toList]) (hf _ _ S'.emptyDict)
+        (by simp [ChkL.chks, ChkL.toList]) (hf _ _ (S'.menu .dict _ _ (by decide +kernel) ⟨_, rfl⟩))
   | numTree =>
     obtain ⟨t, rfl⟩ := hrv
     refine conf_isAny g f _ c _ hk (tree_isRef _ _ t) ?_
@@ -297,27 +397,16 @@ theorem menu_closed (g : Graph) (d : Doc) (hdate : ∀ s, CatalogRules.isDate s 
       · intro kv hkv
         obtain ⟨k, v⟩ := kv
         rw [mem_optPairs] at hkv
-        simp only [List.mem_cons, Prod.mk.injEq, List.not_mem_nil, or_false] at hkv
-        simp only [CatalogRules.nameTreeKeys, List.all_cons, List.all_nil, Bool.and_true, Bool.and_eq_true] at hkeys
-        rcases hkv with ⟨rfl, h⟩ | ⟨rfl, h⟩
-        · obtain ⟨t, _, rfl⟩ := map_some_eq h
-          have h1 := hkeys.1
-          cases hfe : findEnt ents kDests with
-          | none => rw [hfe] at h1; simp at h1
-          | some oc =>
-            obtain ⟨opt, c''⟩ := oc
-            rw [hfe] at h1
-            simp only [Bool.and_eq_true, decide_eq_true_eq] at h1
-            exact ⟨opt, c'', rfl, by rw [h1.1]; decide, hf _ _ (S'.nameTree t c'' h1.2)⟩
-        · obtain ⟨t, _, rfl⟩ := map_some_eq h
-          have h1 := hkeys.2
-          cases hfe : findEnt ents kEmbeddedFiles with
-          | none => rw [hfe] at h1; simp at h1
-          | some oc =>
-            obtain ⟨opt, c''⟩ := oc
-            rw [hfe] at h1
-            simp only [Bool.and_eq_true, decide_eq_true_eq] at h1
-            exact ⟨opt, c'', rfl, by rw [h1.1]; decide, hf _ _ (S'.nameTree t c'' h1.2)⟩
+        obtain ⟨hkm, t, rfl⟩ := namesRows_rv cc k v hkv
+        rw [List.all_eq_true] at hkeys
+        have h1 := hkeys k hkm
+        cases hfe : findEnt ents k with
+        | none => rw [hfe] at h1; simp at h1
+        | some oc =>
+          obtain ⟨opt, c''⟩ := oc
+          rw [hfe] at h1
+          simp only [Bool.and_eq_true, decide_eq_true_eq] at h1
+          exact ⟨opt, c'', rfl, by rw [h1.1]; decide, hf _ _ (S'.nameTree t c'' h1.2)⟩
     | _ => rw [hr] at hk; simp at hk
   | refDict =>
     obtain ⟨i, rfl, hi⟩ := hrv
@@ -341,58 +430,146 @@ theorem menu_closed (g : Graph) (d : Doc) (hdate : ∀ s, CatalogRules.isDate s 
 
 theorem pageRows_rv (d : Doc) (o : PageOpts) (parent : Option Obj) (typ k : Bytes) (v : Obj)
     (h : (k, some v) ∈ pageRows o parent typ) :
-    (k = kParent ∧ parent = some v) ∨ (k = kType ∧ v = .name typ) ∨ ∃ vk, (k, vk) ∈ pageMenu ∧ RV d vk v := by
+    (k = kParent ∧ parent = some v) ∨ (k = kType ∧ v = .name typ) ∨ (k = kB ∧ typ = nPage ∧ RV d .array v) ∨
+      ∃ vk, (k, vk) ∈ pageMenu ∧ RV d vk v := by
   simp only [pageRows, List.mem_cons, Prod.mk.injEq, List.not_mem_nil, or_false] at h
-  rcases h with ⟨rfl, h⟩ | ⟨rfl, h⟩ | ⟨rfl, h⟩ | ⟨rfl, h⟩ | ⟨rfl, h⟩ | ⟨rfl, h⟩ | ⟨rfl, h⟩ | ⟨rfl, h⟩ | ⟨rfl, h⟩ |
-    ⟨rfl, h⟩
+  rcases h with ⟨rfl, h⟩ | ⟨rfl, h⟩ | ⟨rfl, h⟩ | ⟨rfl, h⟩ | ⟨rfl, h⟩ | ⟨rfl, h⟩ | ⟨rfl, h⟩ | ⟨rfl, h⟩ | ⟨rfl, h⟩ | ⟨rfl, h⟩ | ⟨rfl, h⟩ | ⟨rfl, h⟩ | ⟨rfl, h⟩ | ⟨rfl, h⟩ | ⟨rfl, h⟩ | ⟨rfl, h⟩ | ⟨rfl, h⟩ | ⟨rfl, h⟩ | ⟨rfl, h⟩ | ⟨rfl, h⟩ | ⟨rfl, h⟩ | ⟨rfl, h⟩ | ⟨rfl, h⟩ | ⟨rfl, h⟩ | ⟨rfl, h⟩ | ⟨rfl, h⟩ | ⟨rfl, h⟩ | ⟨rfl, h⟩ | ⟨rfl, h⟩ | ⟨rfl, h⟩ | ⟨rfl, h⟩ | ⟨rfl, h⟩ | ⟨rfl, h⟩
   · obtain ⟨a, _, rfl⟩ := map_some_eq h
-    exact Or.inr (Or.inr ⟨.array, by simp [pageMenu], ⟨a, rfl⟩⟩)
+    exact Or.inr (Or.inr (Or.inr ⟨.dict, by decide, ⟨_, rfl⟩⟩))
   · obtain ⟨a, _, rfl⟩ := map_some_eq h
-    exact Or.inr (Or.inr ⟨.rect, by simp [pageMenu], ⟨a, rfl⟩⟩)
+    exact Or.inr (Or.inr (Or.inr ⟨.arrayOfDict, by decide, ⟨a, rfl⟩⟩))
   · obtain ⟨a, _, rfl⟩ := map_some_eq h
-    exact Or.inr (Or.inr ⟨.str, by simp [pageMenu], ⟨a, rfl⟩⟩)
+    exact Or.inr (Or.inr (Or.inr ⟨.array, by decide, ⟨_, rfl⟩⟩))
   · obtain ⟨a, _, rfl⟩ := map_some_eq h
-    exact Or.inr (Or.inr ⟨.date, by simp [pageMenu], ⟨a, rfl⟩⟩)
+    exact Or.inr (Or.inr (Or.inr ⟨.rect, by decide, ⟨a, rfl⟩⟩))
+  · by_cases ht : typ = nPage
+    · rw [if_pos ht] at h
+      obtain ⟨a, _, rfl⟩ := map_some_eq h
+      exact Or.inr (Or.inr (Or.inl ⟨rfl, ht, ⟨_, rfl⟩⟩))
+    · rw [if_neg ht] at h; cases h
   · obtain ⟨a, _, rfl⟩ := map_some_eq h
-    exact Or.inr (Or.inr ⟨.rect, by simp [pageMenu], ⟨a, rfl⟩⟩)
+    exact Or.inr (Or.inr (Or.inr ⟨.rect, by decide, ⟨a, rfl⟩⟩))
+  · obtain ⟨a, _, rfl⟩ := map_some_eq h
+    exact Or.inr (Or.inr (Or.inr ⟨.dict, by decide, ⟨_, rfl⟩⟩))
+  · obtain ⟨a, _, rfl⟩ := map_some_eq h
+    exact Or.inr (Or.inr (Or.inr ⟨.contents, by decide, ⟨a, rfl⟩⟩))
+  · obtain ⟨a, _, rfl⟩ := map_some_eq h
+    exact Or.inr (Or.inr (Or.inr ⟨.rect, by decide, ⟨a, rfl⟩⟩))
+  · obtain ⟨a, _, rfl⟩ := map_some_eq h
+    exact Or.inr (Or.inr (Or.inr ⟨.dict, by decide, ⟨_, rfl⟩⟩))
+  · obtain ⟨a, _, rfl⟩ := map_some_eq h
+    exact Or.inr (Or.inr (Or.inr ⟨.number, by decide, ⟨a, rfl⟩⟩))
+  · obtain ⟨a, _, rfl⟩ := map_some_eq h
+    exact Or.inr (Or.inr (Or.inr ⟨.dict, by decide, ⟨_, rfl⟩⟩))
+  · obtain ⟨a, _, rfl⟩ := map_some_eq h
+    exact Or.inr (Or.inr (Or.inr ⟨.str, by decide, ⟨a, rfl⟩⟩))
+  · obtain ⟨a, _, rfl⟩ := map_some_eq h
+    exact Or.inr (Or.inr (Or.inr ⟨.date, by decide, ⟨a, rfl⟩⟩))
+  · obtain ⟨a, _, rfl⟩ := map_some_eq h
+    exact Or.inr (Or.inr (Or.inr ⟨.rect, by decide, ⟨a, rfl⟩⟩))
+  · obtain ⟨a, _, rfl⟩ := map_some_eq h
+    exact Or.inr (Or.inr (Or.inr ⟨.stream, by decide, ⟨_, _, _, rfl⟩⟩))
+  · obtain ⟨a, _, rfl⟩ := map_some_eq h
+    exact Or.inr (Or.inr (Or.inr ⟨.array, by decide, ⟨_, rfl⟩⟩))
+  · obtain ⟨a, _, rfl⟩ := map_some_eq h
+    exact Or.inr (Or.inr (Or.inr ⟨.number, by decide, ⟨a, rfl⟩⟩))
   · exact Or.inl ⟨rfl, h.symm⟩
   · obtain ⟨a, _, rfl⟩ := map_some_eq h
-    exact Or.inr (Or.inr ⟨.int, by simp [pageMenu], ⟨a, rfl⟩⟩)
+    exact Or.inr (Or.inr (Or.inr ⟨.dict, by decide, ⟨_, rfl⟩⟩))
   · obtain ⟨a, _, rfl⟩ := map_some_eq h
-    exact Or.inr (Or.inr ⟨.nameIn tabOrders, by simp [pageMenu], ⟨a.val, a.isLt, rfl⟩⟩)
+    exact Or.inr (Or.inr (Or.inr ⟨.dict, by decide, ⟨_, rfl⟩⟩))
+  · obtain ⟨a, _, rfl⟩ := map_some_eq h
+    exact Or.inr (Or.inr (Or.inr ⟨.resources, by decide, ⟨a, rfl⟩⟩))
+  · obtain ⟨a, _, rfl⟩ := map_some_eq h
+    exact Or.inr (Or.inr (Or.inr ⟨.int, by decide, ⟨a, rfl⟩⟩))
+  · obtain ⟨a, _, rfl⟩ := map_some_eq h
+    exact Or.inr (Or.inr (Or.inr ⟨.dict, by decide, ⟨_, rfl⟩⟩))
+  · obtain ⟨a, _, rfl⟩ := map_some_eq h
+    exact Or.inr (Or.inr (Or.inr ⟨.int, by decide, ⟨a, rfl⟩⟩))
+  · obtain ⟨a, _, rfl⟩ := map_some_eq h
+    exact Or.inr (Or.inr (Or.inr ⟨(.nameIn tabOrders), by decide, ⟨a.val, a.isLt, rfl⟩⟩))
+  · obtain ⟨a, _, rfl⟩ := map_some_eq h
+    exact Or.inr (Or.inr (Or.inr ⟨.name, by decide, ⟨a, rfl⟩⟩))
+  · obtain ⟨a, _, rfl⟩ := map_some_eq h
+    exact Or.inr (Or.inr (Or.inr ⟨.stream, by decide, ⟨_, _, _, rfl⟩⟩))
+  · obtain ⟨a, _, rfl⟩ := map_some_eq h
+    exact Or.inr (Or.inr (Or.inr ⟨.dict, by decide, ⟨_, rfl⟩⟩))
+  · obtain ⟨a, _, rfl⟩ := map_some_eq h
+    exact Or.inr (Or.inr (Or.inr ⟨.rect, by decide, ⟨a, rfl⟩⟩))
   · exact Or.inr (Or.inl ⟨rfl, by simpa using h⟩)
   · obtain ⟨a, _, rfl⟩ := map_some_eq h
-    exact Or.inr (Or.inr ⟨.number, by simp [pageMenu], ⟨a, rfl⟩⟩)
+    exact Or.inr (Or.inr (Or.inr ⟨.number, by decide, ⟨a, rfl⟩⟩))
+  · obtain ⟨a, _, rfl⟩ := map_some_eq h
+    exact Or.inr (Or.inr (Or.inr ⟨.array, by decide, ⟨_, rfl⟩⟩))
 
 theorem catRows_rv (d : Doc) (k : Bytes) (v : Obj) (h : (k, some v) ∈ catRows d) :
     (k = kPages ∧ v = .ref d.rootId 0) ∨ ∃ vk, (k, vk) ∈ keyTable .catalog ∧ RV d vk v := by
   simp only [catRows, List.mem_cons, Prod.mk.injEq, List.not_mem_nil, or_false] at h
-  rcases h with ⟨rfl, h⟩ | ⟨rfl, h⟩ | ⟨rfl, h⟩ | ⟨rfl, h⟩ | ⟨rfl, h⟩ | ⟨rfl, h⟩ | ⟨rfl, h⟩ | ⟨rfl, h⟩ | ⟨rfl, h⟩ |
-    ⟨rfl, h⟩ | ⟨rfl, h⟩ | ⟨rfl, h⟩
+  rcases h with ⟨rfl, h⟩ | ⟨rfl, h⟩ | ⟨rfl, h⟩ | ⟨rfl, h⟩ | ⟨rfl, h⟩ | ⟨rfl, h⟩ | ⟨rfl, h⟩ | ⟨rfl, h⟩ | ⟨rfl, h⟩ | ⟨rfl, h⟩ | ⟨rfl, h⟩ | ⟨rfl, h⟩ | ⟨rfl, h⟩ | ⟨rfl, h⟩ | ⟨rfl, h⟩ | ⟨rfl, h⟩ | ⟨rfl, h⟩ | ⟨rfl, h⟩ | ⟨rfl, h⟩ | ⟨rfl, h⟩ | ⟨rfl, h⟩ | ⟨rfl, h⟩ | ⟨rfl, h⟩ | ⟨rfl, h⟩ | ⟨rfl, h⟩ | ⟨rfl, h⟩ | ⟨rfl, h⟩ | ⟨rfl, h⟩ | ⟨rfl, h⟩ | ⟨rfl, h⟩ | ⟨rfl, h⟩ | ⟨rfl, h⟩
   · obtain ⟨a, _, rfl⟩ := map_some_eq h
-    exact Or.inr ⟨.str, by simp [keyTable], ⟨a, rfl⟩⟩
+    exact Or.inr ⟨.dict, by decide, ⟨_, rfl⟩⟩
+  · obtain ⟨a, _, rfl⟩ := map_some_eq h
+    exact Or.inr ⟨.arrayOfDict, by decide, ⟨a, rfl⟩⟩
+  · obtain ⟨a, _, rfl⟩ := map_some_eq h
+    exact Or.inr ⟨.dict, by decide, ⟨_, rfl⟩⟩
+  · obtain ⟨a, _, rfl⟩ := map_some_eq h
+    exact Or.inr ⟨.dict, by decide, ⟨_, rfl⟩⟩
+  · obtain ⟨a, _, rfl⟩ := map_some_eq h
+    exact Or.inr ⟨.dict, by decide, ⟨_, rfl⟩⟩
+  · obtain ⟨a, _, rfl⟩ := map_some_eq h
+    exact Or.inr ⟨.dict, by decide, ⟨_, rfl⟩⟩
   · obtain ⟨a, ha, rfl⟩ := map_some_eq h
-    exact Or.inr ⟨.refStream, by simp [keyTable], ⟨a, rfl, ha⟩⟩
-  · exact Or.inr ⟨.nameDict, by simp [keyTable], ⟨d.cat, h.symm⟩⟩
+    exact Or.inr ⟨.refDict, by decide, ⟨a, rfl, Or.inr ha⟩⟩
   · obtain ⟨a, _, rfl⟩ := map_some_eq h
-    exact Or.inr ⟨.bool, by simp [keyTable], ⟨a, rfl⟩⟩
+    exact Or.inr ⟨.dict, by decide, ⟨_, rfl⟩⟩
   · obtain ⟨a, _, rfl⟩ := map_some_eq h
-    refine Or.inr ⟨.arrayOrDict, by simp [keyTable], ?_⟩
+    exact Or.inr ⟨.str, by decide, ⟨a, rfl⟩⟩
+  · obtain ⟨a, _, rfl⟩ := map_some_eq h
+    exact Or.inr ⟨.dict, by decide, ⟨_, rfl⟩⟩
+  · obtain ⟨a, _, rfl⟩ := map_some_eq h
+    exact Or.inr ⟨.dict, by decide, ⟨_, rfl⟩⟩
+  · obtain ⟨a, ha, rfl⟩ := map_some_eq h
+    exact Or.inr ⟨.refStream, by decide, ⟨a, rfl, ha⟩⟩
+  · exact Or.inr ⟨.nameDict, by decide, ⟨d.cat, h.symm⟩⟩
+  · obtain ⟨a, _, rfl⟩ := map_some_eq h
+    exact Or.inr ⟨.bool, by decide, ⟨a, rfl⟩⟩
+  · obtain ⟨a, _, rfl⟩ := map_some_eq h
+    exact Or.inr ⟨.dict, by decide, ⟨_, rfl⟩⟩
+  · obtain ⟨a, _, rfl⟩ := map_some_eq h
+    refine Or.inr ⟨.arrayOrDict, by decide, ?_⟩
     cases a
-    · exact Or.inr (by simp)
-    · exact Or.inl (by simp)
+    · exact Or.inr rfl
+    · exact Or.inl rfl
   · obtain ⟨a, ha, rfl⟩ := map_some_eq h
-    exact Or.inr ⟨.refDict, by simp [keyTable], ⟨a, rfl, ha⟩⟩
+    exact Or.inr ⟨.refDict, by decide, ⟨a, rfl, Or.inl ha⟩⟩
   · obtain ⟨a, _, rfl⟩ := map_some_eq h
-    exact Or.inr ⟨.numTree, by simp [keyTable], ⟨a, rfl⟩⟩
+    exact Or.inr ⟨.array, by decide, ⟨_, rfl⟩⟩
   · obtain ⟨a, _, rfl⟩ := map_some_eq h
-    exact Or.inr ⟨.nameIn pageLayouts, by simp [keyTable], ⟨a.val, a.isLt, rfl⟩⟩
+    exact Or.inr ⟨.numTree, by decide, ⟨a, rfl⟩⟩
   · obtain ⟨a, _, rfl⟩ := map_some_eq h
-    exact Or.inr ⟨.nameIn pageModes, by simp [keyTable], ⟨a.val, a.isLt, rfl⟩⟩
+    exact Or.inr ⟨(.nameIn pageLayouts), by decide, ⟨a.val, a.isLt, rfl⟩⟩
+  · obtain ⟨a, _, rfl⟩ := map_some_eq h
+    exact Or.inr ⟨(.nameIn pageModes), by decide, ⟨a.val, a.isLt, rfl⟩⟩
   · exact Or.inl ⟨rfl, by simpa using h⟩
-  · exact Or.inr ⟨.nameIs nCatalog, by simp [keyTable], by simpa [RV] using h⟩
   · obtain ⟨a, _, rfl⟩ := map_some_eq h
-    exact Or.inr ⟨.name, by simp [keyTable], ⟨a, rfl⟩⟩
+    exact Or.inr ⟨.dict, by decide, ⟨_, rfl⟩⟩
+  · obtain ⟨a, _, rfl⟩ := map_some_eq h
+    exact Or.inr ⟨.dict, by decide, ⟨_, rfl⟩⟩
+  · obtain ⟨a, _, rfl⟩ := map_some_eq h
+    exact Or.inr ⟨.array, by decide, ⟨_, rfl⟩⟩
+  · obtain ⟨a, _, rfl⟩ := map_some_eq h
+    exact Or.inr ⟨.dict, by decide, ⟨_, rfl⟩⟩
+  · obtain ⟨a, _, rfl⟩ := map_some_eq h
+    exact Or.inr ⟨.dict, by decide, ⟨_, rfl⟩⟩
+  · obtain ⟨a, _, rfl⟩ := map_some_eq h
+    exact Or.inr ⟨.array, by decide, ⟨_, rfl⟩⟩
+  · exact Or.inr ⟨.nameIs nCatalog, by decide, by simpa [RV] using h⟩
+  · obtain ⟨a, _, rfl⟩ := map_some_eq h
+    exact Or.inr ⟨.dict, by decide, ⟨_, rfl⟩⟩
+  · obtain ⟨a, _, rfl⟩ := map_some_eq h
+    exact Or.inr ⟨.name, by decide, ⟨a, rfl⟩⟩
+  · obtain ⟨a, _, rfl⟩ := map_some_eq h
+    exact Or.inr ⟨.dict, by decide, ⟨_, rfl⟩⟩
 
 /-! ### the invariant is closed under one unfolding -/
 
@@ -413,7 +590,7 @@ theorem get_row_isSome (L : List (Bytes × Option Obj)) (hnd : (L.map (·.1)).No
 theorem S'_closed (g : Graph) (d : Doc) (hdate : ∀ s, CatalogRules.isDate s = PdfDate.dateOK s)
     (hroot : g.lookup (d.rootId, 0) = some (nodeDict d.count d.kids none))
     (hlook : ∀ b p n, Sub d b p n → g.lookup (n.id, 0) = some (n.dict p))
-    (houtl : ∀ i, d.cat.outlines = some i → g.lookup (i, 0) = some (.dict .nil))
+    (houtl : ∀ i, (d.cat.outlines = some i ∨ d.cat.x.dests = some i) → g.lookup (i, 0) = some (.dict .nil))
     (hmeta : ∀ i, d.cat.metadata = some i → g.lookup (i, 0) = some (.stream .nil 0 [])) :
     ∀ o c, S' d o c → ∀ f : Obj → Chk → Bool, (∀ o' c', S' d o' c' → f o' c' = true) →
       confStep g shippedCtx f o c = true := by
@@ -489,10 +666,11 @@ theorem S'_closed (g : Graph) (d : Doc) (hdate : ∀ s, CatalogRules.isDate s = 
       · intro kv hkv
         obtain ⟨k, v⟩ := kv
         rw [mem_optPairs] at hkv
-        rcases pageRows_rv d o _ _ k v hkv with ⟨rfl, h⟩ | ⟨rfl, rfl⟩ | ⟨vk, hvk, hrv⟩
+        rcases pageRows_rv d o _ _ k v hkv with ⟨rfl, h⟩ | ⟨rfl, rfl⟩ | ⟨rfl, _, hrv⟩ | ⟨vk, hvk, hrv⟩
         · exact menu_entry d f hf .page (pageC b) (mem_rawChks_page b) _ .parentRef (by simp [keyTable]) v
             ⟨p, by simpa using h.symm⟩
         · exact menu_entry d f hf .page (pageC b) (mem_rawChks_page b) _ (.nameIs nPage) (by simp [keyTable]) _ rfl
+        · exact menu_entry d f hf .page (pageC b) (mem_rawChks_page b) _ .array (by simp [keyTable]) v hrv
         · exact menu_entry d f hf .page (pageC b) (mem_rawChks_page b) k vk
             (by simp only [keyTable]; exact List.mem_append_right _ hvk) v hrv
     | tmpl i o =>
@@ -508,10 +686,11 @@ theorem S'_closed (g : Graph) (d : Doc) (hdate : ∀ s, CatalogRules.isDate s = 
       · intro kv hkv
         obtain ⟨k, v⟩ := kv
         rw [mem_optPairs] at hkv
-        rcases pageRows_rv d o _ _ k v hkv with ⟨rfl, h⟩ | ⟨rfl, rfl⟩ | ⟨vk, hvk, hrv⟩
+        rcases pageRows_rv d o _ _ k v hkv with ⟨rfl, h⟩ | ⟨rfl, rfl⟩ | ⟨_, ht, _⟩ | ⟨vk, hvk, hrv⟩
         · simp at h
         · exact menu_entry d f hf .tmpl (tmplC b) (mem_rawChks_tmpl b) _ (.nameIs nTemplate) (by simp [keyTable]) _
             rfl
+        · exact absurd ht (by decide)
         · exact menu_entry d f hf .tmpl (tmplC b) (mem_rawChks_tmpl b) k vk
             (by simp only [keyTable]; exact List.mem_append_right _ hvk) v hrv
     | pages i c k =>
@@ -549,8 +728,15 @@ theorem S'_closed (g : Graph) (d : Doc) (hdate : ∀ s, CatalogRules.isDate s = 
     exact hf _ _ (S'.kid false i n (Sub.deep b p i c kids n hsub hn))
   | menu vk v' c' hk hrv => exact menu_closed g d hdate houtl hmeta vk _ _ hk hrv f hf
   | real n m => exact conf_prim g shippedCtx f _ _ Attr.dflt .real rfl rfl rfl
-  | annot r => exact conf_any_ref g shippedCtx f _ _ _ .allowed rfl (by decide)
-  | emptyDict => exact conf_dict_nil g shippedCtx f _ _ Attr.dflt _ rfl (value_nonref g _ rfl) rfl rfl
+  | anyElem =>
+    rw [confStep_eq g shippedCtx f _ (.any Attr.dflt) _ rfl]
+    rfl
+  | streamArr l =>
+    refine conf_array g shippedCtx f _ _ _ _ _ rfl (value_nonref g _ rfl) rfl rfl ?_
+    intro x hx
+    rw [arrOf_vals] at hx
+    obtain ⟨sv, _, rfl⟩ := List.mem_map.mp hx
+    exact hf _ _ (S'.menu .stream _ _ (by decide +kernel) ⟨_, _, _, rfl⟩)
   | nameTree t c' h =>
     refine conf_isAny g f _ _ _ h (tree_isRef _ _ t) ?_
     rw [← name_tree_rule_eq_shipped]
@@ -564,7 +750,8 @@ theorem rendered_conforms_of_date (hdate : ∀ s, CatalogRules.isDate s = PdfDat
     (hok : d.ok = true) :
     Conforms (CatalogRules.render d).1 shippedCtx (CatalogRules.render d).2 shippedCat :=
   conforms_of_invariant _ shippedCtx (S' d)
-    (S'_closed d.graph d hdate (graph_lookup_root d) (graph_lookup_sub d hok) (graph_lookup_outlines d hok)
+    (S'_closed d.graph d hdate (graph_lookup_root d) (graph_lookup_sub d hok)
+      (fun i hi => hi.elim (graph_lookup_outlines d hok i) (graph_lookup_dests d hok i))
       (graph_lookup_metadata d hok)) _ _ S'.cat
 
 /-- For EVERY well-formed document -- any shape, fan-out and depth of the page tree, any object numbers and /Count
@@ -575,38 +762,49 @@ theorem rendered_conforms (d : Doc) (hok : d.ok = true) :
   rendered_conforms_of_date date_recogniser_eq_regex_shape d hok
 
 /-! ### non-vacuity: a document with ALL optional entries on the catalog, on a page and on a template
-  (the third document of `fixedDocs` in Driver/C10.lean) -/
+  (`exDocFull` of Spec/CatalogRules.lean = the third document of `fixedDocs` in Driver/C10.lean): EVERY entry of the
+  shipped catalog, page and template types, the ten name trees, the eight /Resources entries -/
 
-def wRect : Rect := ⟨.int 0, .int 0, .real 612 1, .int 792⟩
-def wDate : Date :=
-  ⟨⟨2020, by decide⟩, some ⟨11, by decide⟩, some ⟨30, by decide⟩, some ⟨23, by decide⟩, some ⟨59, by decide⟩,
-   some ⟨59, by decide⟩, some ⟨⟨1, by decide⟩, some ⟨8, by decide⟩, some ⟨0, by decide⟩, true⟩⟩
-/-- /Annots [901 0 R] /CropBox /ID (id) /LastModified (D:20201231235959-08'00') /MediaBox /Rotate 90 /Tabs /S
-    /UserUnit 1.5 -/
-def wPageOpts : PageOpts :=
-  ⟨some [901], some wRect, some [0x69, 0x64], some wDate, some wRect, some 90, some ⟨2, by decide⟩, some (.real 3 2)⟩
-/-- /Lang (en) /Metadata 20 0 R /Names << /Dests leaf /EmbeddedFiles inner+limits >> /NeedsRendering true
-    /OpenAction [] /Outlines 21 0 R /PageLabels leaf+limits /PageLayout /OneColumn /PageMode /FullScreen
-    /Version /1.7 -/
-def wCatOpts : CatOpts :=
-  ⟨some [0x65, 0x6E], some 20, some (.leaf [([0x61], 801)] none), some (.inner [802] (some ([0x61], [0x62]))),
-   some true, some true, some 21, some (.leaf [(0, 803), (5, 804)] (some (0, 5))), some ⟨1, by decide⟩,
-   some ⟨3, by decide⟩, some [0x31, 0x2E, 0x37]⟩
-def wDocFull : Doc :=
-  ⟨wCatOpts, 1, 3, Nodes.ofList [.page 2 wPageOpts, .tmpl 3 wPageOpts,
-    .pages 4 1 (Nodes.ofList [.page 5 PageOpts.none])]⟩
+def wDocFull : Doc := CatalogRules.exDocFull
 
 example : Conforms (CatalogRules.render wDocFull).1 shippedCtx (CatalogRules.render wDocFull).2 shippedCat :=
   rendered_conforms wDocFull (by decide)
 
 /-- the witness really carries the optional entries, and the executable reading agrees at a finite depth -/
 example :
-    (match (CatalogRules.render wDocFull).2 with | .dict kvs => kvs.keys.length | _ => 0) = 12 ∧
+    (match (CatalogRules.render wDocFull).2 with | .dict kvs => kvs.keys.length | _ => 0) = 32 ∧
     (match Graph.lookup (CatalogRules.render wDocFull).1 (2, 0) with
-      | some (.dict kvs) => kvs.keys.length | _ => 0) = 10 ∧
+      | some (.dict kvs) => kvs.keys.length | _ => 0) = 33 ∧
     (match Graph.lookup (CatalogRules.render wDocFull).1 (3, 0) with
-      | some (.dict kvs) => kvs.keys.length | _ => 0) = 9 ∧
+      | some (.dict kvs) => kvs.keys.length | _ => 0) = 31 ∧
     conf (CatalogRules.render wDocFull).1 shippedCtx 30 (CatalogRules.render wDocFull).2 shippedCat = true := by
+  decide +kernel
+
+/-- the rendered dictionaries list their keys in byte order (the order of the crate's BTreeMap): catalog, its /Names,
+    the page and the template with every entry, the page's /Resources -/
+def sortedB : List Bytes → Bool
+  | a :: b :: t => CatalogRules.bytesLt a b && sortedB (b :: t)
+  | _ => true
+
+def keysSorted : Option Obj → Bool
+  | some (.dict kvs) => sortedB kvs.keys
+  | _ => false
+
+def entryOf (o : Option Obj) (k : Bytes) : Option Obj :=
+  match o with
+  | some (.dict kvs) => kvs.get k
+  | _ => none
+
+example :
+    keysSorted (some (CatalogRules.render wDocFull).2) = true ∧
+    keysSorted (entryOf (some (CatalogRules.render wDocFull).2) CatalogRules.kNames) = true ∧
+    keysSorted (Graph.lookup (CatalogRules.render wDocFull).1 (2, 0)) = true ∧
+    keysSorted (Graph.lookup (CatalogRules.render wDocFull).1 (3, 0)) = true ∧
+    keysSorted (entryOf (Graph.lookup (CatalogRules.render wDocFull).1 (2, 0)) CatalogRules.kResources) = true ∧
+    (match entryOf (some (CatalogRules.render wDocFull).2) CatalogRules.kNames with
+      | some (.dict kvs) => kvs.keys.length | _ => 0) = 10 ∧
+    (match entryOf (Graph.lookup (CatalogRules.render wDocFull).1 (2, 0)) CatalogRules.kResources with
+      | some (.dict kvs) => kvs.keys.length | _ => 0) = 8 := by
   decide +kernel
 
 end Parsley.C10
